@@ -309,7 +309,7 @@ type OpExpr5 struct {
 }
 
 type Expr5 struct {
-	Operator *Operator `@("!")?`
+	Operator *Operator `@("!":Punct)?`
 	Expr6    *Expr6    `@@`
 }
 
